@@ -137,6 +137,10 @@ pub struct Traced {
     pub problems: Vec<String>,
     pub write_failed: bool,
     pub zero_progress: bool,
+    /// input bytes the write calls reported as consumed, in total
+    pub accepted: usize,
+    /// running total after each write call
+    pub accepted_after: Vec<usize>,
 }
 
 fn pieces(len: usize, cuts: &[usize]) -> Vec<(usize, usize)> {
@@ -165,6 +169,8 @@ pub fn run_traced(c: &StreamCase, full_out: Option<&[u8]>, size_done: bool) -> T
     let mut write_failed = false;
     let mut zero_progress = false;
     let mut total_syms: i64 = 0;
+    let mut accepted = 0usize;
+    let mut accepted_after: Vec<usize> = vec![];
     let data_ref = &data;
     let r = catch(|| {
         hook_start();
@@ -185,9 +191,8 @@ pub fn run_traced(c: &StreamCase, full_out: Option<&[u8]>, size_done: bool) -> T
                     let before = sink.len();
                     let _ = s.flush();
                     events.push(json!({"ev": "Flush", "before": before, "after": sink.len()}));
-                    if sink.len() != before {
-                        problems.push("flush delivered bytes to the sink".into());
-                    }
+                    // (whether flush() hands pending output to the sink is not fixed by any listed property: the trace
+                    // specification sees it - Trace_Stream!TFlush - and reports DRIFT)
                 }
             }
             let mut p = &data_ref[a..b];
@@ -220,6 +225,8 @@ pub fn run_traced(c: &StreamCase, full_out: Option<&[u8]>, size_done: bool) -> T
                             stop = true;
                             break;
                         }
+                        accepted += n.min(p.len());
+                        accepted_after.push(accepted);
                         if latched && (n != 0 || sink.len() != sink_at_latch) {
                             problems.push("a write after a failed write consumed input or delivered output".into());
                         }
@@ -288,6 +295,8 @@ pub fn run_traced(c: &StreamCase, full_out: Option<&[u8]>, size_done: bool) -> T
         problems,
         write_failed,
         zero_progress,
+        accepted,
+        accepted_after,
     }
 }
 
@@ -336,6 +345,25 @@ pub fn check_case(c: &StreamCase, prop: &str, rep: &mut Report, trace: &mut Opti
         vs.push(format!("panic in the streaming decoder: {}", t.msg));
     }
     vs.extend(t.problems.iter().cloned());
+    if size_done && t.verdict != Verdict::Panic {
+        // "once the declared size has been reached, further writes consume nothing": all the write calls together
+        // may not report more input consumed than the payload holds (18 = what the header staging buffer may take
+        // from a first short write)
+        // (the call during which the payload completes may have taken a bounded number of bytes past its end - the
+        // unchanged decoder parks up to 19 bytes of a short piece before decoding them; 64 is the look-ahead C15 allows)
+        // The property constrains FURTHER writes, not the one during which the size is reached, and the decoder may
+        // lag behind its input by the look-ahead C15 allows (64 bytes).  So: once the calls so far have taken the
+        // whole payload plus 64 bytes, the size has been reached, and every later write must consume nothing.
+        if let Some(ec) = e.consumed {
+            if let Some(k) = t.accepted_after.iter().position(|&a| a >= ec + 64) {
+                if let Some(&last) = t.accepted_after.last() {
+                    if last > t.accepted_after[k] {
+                        vs.push(format!("after {} input bytes had been taken (payload ends at byte {}, look-ahead 64) later writes still reported {} more bytes consumed", t.accepted_after[k], ec, last - t.accepted_after[k]));
+                    }
+                }
+            }
+        }
+    }
     if c.mode == "c16" && t.verdict != Verdict::Panic {
         // once the size in effect is reached (exactly, or overshot by the last copy) nothing more may be decoded:
         // the sink can never hold more than the symbols up to and including the one that reached it produce
@@ -349,6 +377,10 @@ pub fn check_case(c: &StreamCase, prop: &str, rep: &mut Report, trace: &mut Opti
     }
     match c.mode.as_str() {
         "c05" | "c16" => {
+            // the comparison with the one-shot decoder is C05's text: under C16 it is shape-tier information only
+            let mut c05vs: Vec<String> = vec![];
+            std::mem::swap(&mut c05vs, &mut vs);
+            let own = c05vs;
             if one.verdict == Verdict::Panic {
                 // one-shot panics are C07's business; nothing to compare against
             } else if data.is_empty() {
@@ -373,6 +405,15 @@ pub fn check_case(c: &StreamCase, prop: &str, rep: &mut Report, trace: &mut Opti
                     }
                 }
             }
+            // vs now holds the C05 clauses only; `own` what was found before
+            if c.mode == "c16" {
+                for d in vs.drain(..) {
+                    rep.drift(format!("(C05 clause seen while checking C16) {}", d), json!({"origin": c.origin}));
+                }
+            }
+            let mut all = own;
+            all.extend(vs.drain(..));
+            vs = all;
         }
         "c15" => {
             // data is a PREFIX of a valid stream (c.origin carries the full stream's output via expect)
@@ -796,7 +837,7 @@ pub fn gen_cuts(rng: &mut StdRng, g: &GenStream, strategy: usize) -> Vec<usize> 
 
 pub fn mutate(rng: &mut StdRng, g: &GenStream, how: usize) -> (Vec<u8>, String) {
     let mut d = g.data.clone();
-    match how % 6 {
+    match how % 7 {
         0 => (d, "valid".into()),
         1 => {
             let k = rng.gen_range(0..d.len());
@@ -822,6 +863,13 @@ pub fn mutate(rng: &mut StdRng, g: &GenStream, how: usize) -> (Vec<u8>, String) 
                 d.push(0);
             }
             (d, format!("trailing-zeros+{}", n))
+        }
+        6 => {
+            let n = rng.gen_range(70..400);
+            for _ in 0..n {
+                d.push(rng.gen());
+            }
+            (d, format!("trailing+{}", n))
         }
         _ => {
             // corrupt a header field
@@ -1133,7 +1181,7 @@ pub fn run_c16(prop: &str, seed: u64, nstreams: usize, nsyms: usize, trace_path:
     for i in 0..nstreams {
         let ns0 = 1 + rng.gen_range(0..nsyms);
         let g = gen_valid(&mut rng, ns0, i);
-        for how in [0usize, 2, 3, 5, 1] {
+        for how in [0usize, 2, 3, 5, 1, 6] {
             let (data, mname) = mutate(&mut rng, &g, how);
             let gg = GenStream { data: data.clone(), opt: g.opt, origin: String::new(), bounds: g.bounds.clone() };
             let cuts = gen_cuts(&mut rng, &gg, i + how);
